@@ -698,3 +698,57 @@ func H_C09_nestedNilReturn() {
 	vfNote(out)
 	vfAssert(out == "[]", "a nested return of nil is the last return executed")
 }
+
+type c09Name string
+
+type c09Page struct {
+	Part  c09Name
+	Parts []c09Name
+}
+
+// H_C09_extendingTarget: the target of include / includeIfExists / exec extends a layout
+// and overrides one of the layout's blocks (another is left at its default): the layout's
+// body is rendered with the target's own definitions - at the top level, with an explicit
+// context, and once per element inside a range; the template name is a string literal, a
+// string variable, or a value of a named string type (variable, struct field, slice element).
+//
+//gosym:reach rendered
+func H_C09_extendingTarget() {
+	kind := ndChoice("kind", 3)
+	nameForm := ndChoice("name", 5)
+	name := []string{`"/ui/card.jet"`, `sname`, `nname`, `.Part`, `.Parts[1]`}[nameForm]
+	var call1, callR string
+	switch kind {
+	case 0:
+		call1, callR = `{{ include `+name+` "ann" }}`, `{{ include pg.Part . }}`
+	case 1:
+		call1, callR = `{{ if includeIfExists(`+name+`, "ann") }}{{ end }}`, `{{ if includeIfExists(pg.Part, .) }}{{ end }}`
+	default:
+		call1, callR = `{{ exec(`+name+`, "ann") }}`, `{{ exec(pg.Part, .) }}`
+	}
+	ret := ""
+	if kind == 2 {
+		ret = `{{ return "R" }}` // (a value returned through include would end the caller's range)
+	}
+	set := hxSet(nil,
+		"/ui/page.jet", `{{ block title() }}page-title{{ end }}[`+call1+`]{{ range names }}(`+callR+`){{ end }}{{ yield title() }}`,
+		"/ui/card.jet", `{{ extends "cardbase.jet" }}{{ block title() }}card:{{ . }}{{ end }}{{ block extra() }}x{{ end }}`,
+		"/ui/cardbase.jet", `{{ block title() }}default-title{{ end }}|{{ block body() }}default-body{{ end }}|{{ yield title() }}`+ret,
+	)
+	pg := c09Page{Part: "/ui/card.jet", Parts: []c09Name{"/nope.jet", "/ui/card.jet"}}
+	vars := make(VarMap)
+	vars.Set("sname", "/ui/card.jet")
+	vars.Set("nname", c09Name("/ui/card.jet"))
+	vars.Set("pg", pg)
+	vars.Set("names", []string{"bob", "cy"})
+	out, err := hxExec(set, "/ui/page.jet", vars, pg)
+	vfReach("rendered")
+	vfAssert(err == nil, "renders")
+	one := func(c string) string { return "card:" + c + "|default-body|card:" + c }
+	want := "page-title[" + one("ann") + "](" + one("bob") + ")(" + one("cy") + ")page-title"
+	if kind == 2 {
+		want = "page-title[R](R)(R)page-title"
+	}
+	vfNote(out)
+	vfAssert(out == want, "the target's own blocks are in effect while its layout renders; the caller's afterwards")
+}
